@@ -304,6 +304,10 @@ class Emitter:
     def func_cname(self, decl):
         q = self.ix.qual.get(decl["id"], decl.get("name"))
         np = len(params_of(decl))
+        sig = decl.get("type", {}).get("qualType", "")
+        for suf, sub, forced in getattr(self.cfg, "cnames_sig", ()):
+            if (q == suf or q.endswith("::" + suf)) and sub in sig:
+                return forced
         for key in ("%s/%d" % (q, np), q):
             for suf, forced in self.cfg.cnames.items():
                 if key == suf or key.endswith("::" + suf):
@@ -760,6 +764,10 @@ class Emitter:
             raise ExtractionError("unsupported declaration %s" % k)
         name = v["name"]
         init = [c for c in v.get("inner", []) if isinstance(c, dict) and c.get("kind") and not c["kind"].endswith("Attr")]
+        tn = lconst(strip_ns(v["type"].get("desugaredQualType") or v["type"].get("qualType", "")))
+        if split_targs(tn)[0] in getattr(self.cfg, "drop_types", ()):
+            self.report["declarations of %s dropped (mutual exclusion assumed, see assumptions)" % split_targs(tn)[0]] += 1
+            return "  " * ind + "/* dropped: %s %s */" % (split_targs(tn)[0], name)
         # lambda object
         if init and self._strip(init[0]).get("kind") == "LambdaExpr":
             self.lambda_info(self._strip(init[0]), name)
@@ -814,7 +822,17 @@ class Emitter:
                 for key in ("qualType", "desugaredQualType"):
                     if key in et:
                         et[key] = re.sub(r"\s*\[\d+\]$", "", et[key])
+                        b_, ta_ = split_targs(lconst(strip_ns(et[key])))
+                        if b_ == "std::array" and ta_:
+                            et[key] = ta_[0]      # std::array<T,N> x;  default-initialises N objects of T
+                            s2["inner"] = []
+                            s2.pop("ctorType", None)
                 s2["type"] = et
+                if s2.get("inner") == [] and "ctorType" not in s2:
+                    rec = self.find_record(lconst(strip_ns(et.get("desugaredQualType") or et["qualType"])))
+                    dd = self._implicit_default_ctor(rec) if rec is not None else None
+                    if dd is not None:
+                        s2["ctorType"] = {"qualType": dd["type"]["qualType"]}
                 ctor = self._default_ctor_expr(s2)
                 return pad + st + vt.decl(name) + ";\n" + self.unrolled(pad, 0, vt.dims[0], name + "[%(i)d] = " + ctor.replace("%", "%%") + ";")
             raise ExtractionError("unsupported array initialiser for %s: %s" % (name, s.get("kind")))
